@@ -68,7 +68,7 @@ class BaseNode(Node):
     def cast_value(self, value=None):
         """ Cast (raw-)value as a datatype self, or another node
         """
-        if not value:
+        if value is None or (isinstance(value, str) and value==''):
             if self.value is None:
                 value = self.value_raw
             else:
